@@ -23,6 +23,19 @@ def gen(ctx, cfg, res, simulate=None, limit=None, timeout=900):
     return out
 
 
+def attacks(ctx, cfg, res, key, limit, simulate=None):
+    """Schedules of a named-deviation variant in which the specification itself ends in a bad state
+    (expect[key] is false): deterministic attacks on the property.  On code that follows the repaired
+    design they cannot be followed (drift) and the run is judged anyway."""
+    cs = [c for c in gen(ctx, cfg, res, simulate=simulate, timeout=1800) if not c["expect"][key]]
+    rnd = random.Random(ctx.seed + 5)
+    if len(cs) > limit:
+        cs = rnd.sample(cs, limit)
+    for c in cs:
+        c["attack"] = True
+    return cs
+
+
 def run_and_check(ctx, prop, cases, label):
     for n, c in enumerate(cases):
         c["n"] = n + 1
